@@ -710,3 +710,5 @@ def run(ctx):
       ctx.count('world:fedavg', 20)
   finally:
     shutil.rmtree(work, ignore_errors=True)
+
+TECHNIQUE += '; real kills of a sub-process started under another PYTHONHASHSEED; worlds with weakly typed / lazily created / insertion-ordered state'
